@@ -80,7 +80,15 @@ Definition nthz (l : list Z) (r : nat) : Z := nth r l 0%Z.
 
 (* ---- the property, evaluated on the implementation's observations alone.
    tr / tr' : the callers' bookkeeping before / after the operation. ---- *)
-Definition prop_step (nres : nat) (tr : tracker) (ob : C18_obs) : option string :=
+(* informers the callers' own history calls for, per resource: one more each
+   time a resource with no open subscription is subscribed to *)
+Definition starts_step (tr : tracker) (ex : nat -> nat) (o : op) : nat -> nat :=
+  match o with
+  | Subscribe r => if Nat.eqb (open_count tr r) 0 then upd ex r (S (ex r)) else ex
+  | _ => ex
+  end.
+
+Definition prop_step (nres : nat) (tr : tracker) (ex : nat -> nat) (ob : C18_obs) : option string :=
   let o := ob_op ob in
   let tr' := track_step tr o in
   let obs := ob_dels ob in
@@ -119,6 +127,14 @@ Definition prop_step (nres : nat) (tr : tracker) (ob : C18_obs) : option string 
            end
        | _ => true
        end);
+    (* ONE underlying informer per resource: never two watches, never a second
+       LIST while the resource is subscribed to, a new LIST for a fresh start *)
+    ("more-than-one-informer",
+       forallb (fun r => Z.leb (nthz (ob_watch ob) r) 1) (seq 0 nres));
+    ("extra-informer-started",
+       forallb (fun r => Z.leb (nthz (ob_lists ob) r) (Z.of_nat (starts_step tr ex o r))) (seq 0 nres));
+    ("no-fresh-informer",
+       forallb (fun r => Z.leb (Z.of_nat (starts_step tr ex o r)) (nthz (ob_lists ob) r)) (seq 0 nres));
     ("informer-not-stopped-after-last-close",
        forallb (fun r => negb (Nat.eqb (open_count tr' r) 0) || Z.eqb (nthz (ob_watch ob) r) 0) (seq 0 nres));
     ("informer-stopped-while-subscribed",
@@ -127,13 +143,13 @@ Definition prop_step (nres : nat) (tr : tracker) (ob : C18_obs) : option string 
     ("panic", negb (ob_panic ob && wf_step tr o))
   ].
 
-Fixpoint prop_steps (nres : nat) (k : nat) (tr : tracker) (l : list C18_obs) : option string :=
+Fixpoint prop_steps (nres : nat) (k : nat) (tr : tracker) (ex : nat -> nat) (l : list C18_obs) : option string :=
   match l with
   | [] => None
   | ob :: l' =>
-      match prop_step nres tr ob with
+      match prop_step nres tr ex ob with
       | Some c => Some (at_step c k)
-      | None => prop_steps nres (S k) (track_step tr (ob_op ob)) l'
+      | None => prop_steps nres (S k) (track_step tr (ob_op ob)) (starts_step tr ex (ob_op ob)) l'
       end
   end.
 
@@ -178,7 +194,7 @@ Fixpoint model_steps (nres : nat) (k : nat) (st : state) (l : list C18_obs) : op
 
 Definition C18_check (c : C18_case) : verdict :=
   let nres := zn (c_nres c) in
-  match prop_steps nres 0 tr0 (c_steps c) with
+  match prop_steps nres 0 tr0 (fun _ => 0) (c_steps c) with
   | Some cl => PROPFAIL cl
   | None =>
       match model_steps nres 0 init (c_steps c) with
